@@ -296,7 +296,7 @@ def c10_rename(t, perm, w, inplace, S=2, L=2):
     fsa = _fsa()
     A = fsa.FSA(table_to_graph(t, S, L), start_vertices=[0])
     maps = [dict(zip(LABELS[:L], p)) for p in itertools.permutations(LABELS[:L])] + [dict(zip(LABELS[:L], ['x', 'y', 'z'][:L])),
-                                                                                      dict(zip(LABELS[:L], LABELS[1:L + 1]))]
+                                                                                      dict(zip(LABELS[:L], (LABELS + ["d"])[1:L + 1]))]
     m = maps[perm % len(maps)]
     before = (view_graph(A), view_out(A), view_in(A))
     if inplace:
